@@ -27,6 +27,7 @@ structure Lvl.Good (l : Lvl) : Prop where
   frames : FramesOk l.fs
   noOpn : ∀ f ∈ l.pre, f.isOpn = false
   topOk : ∀ e, l.top = some e → colonLu e = false
+  topCanon : ∀ e, l.top = some e → canonB e = true ∧ rootPrec e = 0
 
 /-- a scope matches its description -/
 def Lvl.Rep (l : Lvl) (sc : Scope) : Prop := sc.out = scopeOut l.fs l.top ∧ sc.ops = scopeOps l.fs
@@ -41,6 +42,7 @@ structure PairOk (par : Lvl) (n : OpNode) (sh : ShScope) (before : Option Tok) :
   before : if sh.inE then (before = none ∨ ∃ b, before = some (.op b) ∧ has b.ty T.pairEnd = false)
            else ((∃ t, before = some t ∧ (∀ o, t ≠ .op o)) ∨ ∃ b, before = some (.op b) ∧ has b.ty T.pairEnd = true)
   savedQ : sh.savedQ = questCount par.fs
+  cast : sh.inE = true → sh.castOk = true → ∀ f, par.fs.head? = some f → f.accepts Op.parenCast.prec = true
 
 /-- the levels of the state, innermost first, with the scopes they describe -/
 inductive Levels : Lvl → List Lvl → Scope → List Scope → List ShScope → Prop
